@@ -418,6 +418,56 @@ func (fr *Frame) doCallInner(cc *ssa.CallCommon, site ssa.Instruction, args []Te
 	if cl, ok := fr.closures[cc.Value]; ok {
 		return fr.callFunction(cl.fn, cl, sig, cc, site, args, names)
 	}
+	// a function value that is one of several known closures (`f := a; if c { f = b }; f()`):
+	// one call per alternative, under the condition that the value is that closure
+	if ph, ok := cc.Value.(*ssa.Phi); ok {
+		var cls []*closureVal
+		var vals []Term
+		for _, e := range ph.Edges {
+			v := e
+			if ct, ok := v.(*ssa.ChangeType); ok {
+				v = ct.X
+			}
+			cl, ok := fr.closures[v]
+			if !ok {
+				cls = nil
+				break
+			}
+			cls = append(cls, cl)
+			vals = append(vals, fr.val(e))
+		}
+		if len(cls) > 1 {
+			pre := fr.st
+			savedPC := fr.pc
+			pv := fr.val(ph)
+			var guards []Term
+			var sts []*State
+			var ress [][]Term
+			for i, cl := range cls {
+				g := "(= " + pv + " " + vals[i] + ")"
+				fr.pc = and(savedPC, g)
+				fr.st = pre.clone()
+				rs := fr.callFunction(cl.fn, cl, sig, cc, site, args, names)
+				guards = append(guards, g)
+				sts = append(sts, fr.st)
+				ress = append(ress, rs)
+			}
+			fr.pc = savedPC
+			c.assert(implies(savedPC, or(guards...)))
+			fr.st = c.mergeStates(guards, sts)
+			var out []Term
+			for i := 0; i < sig.Results().Len(); i++ {
+				n := c.fresh(fr.id+"_dyn_r", c.sortOf(sig.Results().At(i).Type()))
+				for k := range cls {
+					if i < len(ress[k]) {
+						c.assert(implies(guards[k], "(= "+n+" "+ress[k][i]+")"))
+					}
+				}
+				out = append(out, n)
+			}
+			return out
+		}
+	}
 	fr.nopanic("nil-func-call", "(not (= "+fr.val(cc.Value)+" null))", site.Pos())
 	if sc := fr.siteContract(); sc != nil && sc.Callees != nil {
 		if cb, ok := sc.Callees[fr.sourceName(cc.Value)]; ok {
@@ -459,6 +509,19 @@ func ifaceMethodKey(m *types.Func) string {
 
 func (fr *Frame) callFunction(f *ssa.Function, cl *closureVal, sig *types.Signature, cc *ssa.CallCommon, site ssa.Instruction, args []Term, names []string) []Term {
 	c := fr.c
+	// bound method value (`v := x.M`): the call is x.M(args)
+	if strings.HasPrefix(f.Synthetic, "bound method wrapper") && cl != nil && cl.parent != nil && len(cl.bindings) == 1 {
+		for _, b := range f.Blocks {
+			for _, in := range b.Instrs {
+				if call, ok := in.(*ssa.Call); ok {
+					if m := call.Call.StaticCallee(); m != nil && !call.Call.IsInvoke() {
+						nargs := append([]Term{cl.parent.val(cl.bindings[0])}, args...)
+						return fr.callFunction(m, nil, m.Signature, &call.Call, site, nargs, names)
+					}
+				}
+			}
+		}
+	}
 	if hs, ok := hardcoded(fr, f, cc, site, args); ok {
 		return hs
 	}
@@ -1280,6 +1343,12 @@ func hardcoded(fr *Frame, f *ssa.Function, cc *ssa.CallCommon, site ssa.Instruct
 		return []Term{r}, true
 	case "fmt.Sprintf", "fmt.Sprint", "fmt.Sprintln":
 		c.assumed["fmt.Sprint* formats without modifying its arguments (String/Error methods are side-effect free)"] = true
+		if key == "fmt.Sprintf" {
+			if t, ok := fr.sprintfConcat(cc); ok {
+				c.assumed["fmt.Sprintf with only %s verbs over string-kinded arguments is the concatenation of the format's literal parts and the arguments"] = true
+				return []Term{t}, true
+			}
+		}
 		return []Term{fr.freshOfType("sprintf", types.Typ[types.String])}, true
 	case "errors.Is":
 		c.assumed["errors.Is is the reflexive-transitive unwrap relation errIs"] = true
@@ -1327,6 +1396,81 @@ func hardcoded(fr *Frame, f *ssa.Function, cc *ssa.CallCommon, site ssa.Instruct
 }
 
 func (fr *Frame) markFreshIface(r Term) {}
+
+// sprintfConcat: Sprintf(format, args...) where format is a constant whose only verbs are
+// %s (and %%) and every argument is a string or a named string type without methods
+// String/Error/Format: the result is a plain concatenation.
+func (fr *Frame) sprintfConcat(cc *ssa.CallCommon) (Term, bool) {
+	c := fr.c
+	k, ok := cc.Args[0].(*ssa.Const)
+	if !ok || k.Value == nil || k.Value.Kind() != constant.String {
+		return "", false
+	}
+	format := constant.StringVal(k.Value)
+	var parts []Term
+	lit := ""
+	argi := 0
+	flush := func() {
+		if lit != "" {
+			parts = append(parts, c.strLit(lit))
+			lit = ""
+		}
+	}
+	for i := 0; i < len(format); i++ {
+		if format[i] != '%' {
+			lit += string(format[i])
+			continue
+		}
+		if i+1 >= len(format) {
+			return "", false
+		}
+		i++
+		switch format[i] {
+		case '%':
+			lit += "%"
+		case 's':
+			flush()
+			if len(cc.Args) < 2 {
+				return "", false
+			}
+			a := fr.variadicArg(cc.Args[1], argi)
+			argi++
+			if a == nil {
+				return "", false
+			}
+			if mi, ok := a.(*ssa.MakeInterface); ok {
+				a = mi.X
+			}
+			b, isBasic := a.Type().Underlying().(*types.Basic)
+			if !isBasic || b.Info()&types.IsString == 0 {
+				return "", false
+			}
+			if n, isNamed := a.Type().(*types.Named); isNamed {
+				for m := 0; m < n.NumMethods(); m++ {
+					switch n.Method(m).Name() {
+					case "String", "Error", "Format", "GoString":
+						// a Stringer prints through its method; digest.Digest.String() is string(d)
+						if !(n.Obj().Pkg() != nil && n.Obj().Pkg().Path() == "github.com/opencontainers/go-digest" && n.Obj().Name() == "Digest" && n.Method(m).Name() == "String") {
+							return "", false
+						}
+					}
+				}
+			}
+			parts = append(parts, fr.val(a))
+		default:
+			return "", false
+		}
+	}
+	flush()
+	if len(parts) == 0 {
+		return "str_empty", true
+	}
+	t := parts[0]
+	for _, p := range parts[1:] {
+		t = "(strcat " + t + " " + p + ")"
+	}
+	return t, true
+}
 
 // verbIndex returns the argument indices consumed by the given verb.
 func verbIndex(format string, verb byte) []int {
